@@ -171,8 +171,10 @@ Proof.
   destruct (nf (cs s) (app, asset)) as [x|]; [|intros H; injection H as <-; apply lframe_refl].
   intros H. apply obind_ok in H. destruct H as (s1 & H1 & H2).
   assert (L1 : lframe s s1).
-  { destruct ((x <=? cl_debt_thr cl - cl_lot cl) && af_debt (flags_of s app asset)); [exact (mapping_lframe _ _ _ _ _ H1)|].
-    injection H1 as <-. apply lframe_refl. }
+  { destruct ((x <=? cl_debt_thr cl - cl_lot cl) && af_debt (flags_of s app asset)).
+    - destruct (negb (has_asset (cs s) (cl_asset cl) && has_asset (cs s) (cl_secondary cl))); [discriminate|].
+      exact (mapping_lframe _ _ _ _ _ H1).
+    - injection H1 as <-. apply lframe_refl. }
   eapply lframe_trans; [exact L1|].
   destruct ((x >=? cl_surplus_thr cl + cl_lot cl) && af_surplus (flags_of s app asset)); [|injection H2 as <-; apply lframe_refl].
   destruct (negb (has_asset (cs s1) (cl_asset cl) && has_asset (cs s1) (cl_secondary cl))); [discriminate|].
